@@ -3,6 +3,7 @@ package rules
 import (
 	"fmt"
 	"go/ast"
+	"go/token"
 	"go/types"
 
 	"arkverif/checker/core"
@@ -265,5 +266,95 @@ func c04r9(c *core.Ctx) {
 			check(f, call, X, call.Args[0], "", 0)
 			return true
 		})
+	}
+}
+
+// c04r12: the per-target table index (all tables that use a target in any relation column; it is what the cleanup
+// walks when the target dies) loses the entry of a target only together with the whole target: in a function that
+// deletes the target's entry from the per-column index of every column (the remove-target role), or under a test that
+// the entry's own table list is empty. Dropping it because one column's list became empty forgets the tables that use
+// the target in another column: when the target dies later they keep a dead target.
+func c04r12(c *core.Ctx) {
+	m := c.M
+	n := 0
+	for _, f := range m.AllFuncs() {
+		core.InspectNoLits(f.Body, func(x ast.Node) bool {
+			call, ok := x.(*ast.CallExpr)
+			if !ok || !m.IsBuiltin(call, "delete") || len(call.Args) != 2 || fieldKeyOf(m, call.Args[0]) != "archetypeData.targetTables" {
+				return true
+			}
+			n++
+			key := m.ExprString(ast.Unparen(call.Args[1]))
+			subject := fmt.Sprintf("%s: %s", f.Name, m.ExprString(call))
+			// (a) remove-target role: the same key is deleted from every column's map in a loop over the per-column index
+			allCols := false
+			core.InspectNoLits(f.Body, func(y ast.Node) bool {
+				rs, isR := y.(*ast.RangeStmt)
+				if !isR || fieldKeyOf(m, rs.X) != "archetype.relationTables" {
+					return true
+				}
+				ast.Inspect(rs.Body, func(z ast.Node) bool {
+					if d, isC := z.(*ast.CallExpr); isC && m.IsBuiltin(d, "delete") && len(d.Args) == 2 && m.ExprString(ast.Unparen(d.Args[1])) == key {
+						if ix, isIx := ast.Unparen(d.Args[0]).(*ast.IndexExpr); isIx && fieldKeyOf(m, ix.X) == "archetype.relationTables" {
+							allCols = true
+						}
+					}
+					return true
+				})
+				return true
+			})
+			if allCols {
+				c.OK("C04/R12", subject, c.At(call.Pos()), "the target is dropped from the per-column index of every column in the same function")
+				return true
+			}
+			// (b) under an emptiness test of the entry's own table list
+			spec := core.GuardSpec{
+				Only: f,
+				GuardAtom: func(ff *core.Func, at core.Atom) bool {
+					be, ok := ast.Unparen(at.Expr).(*ast.BinaryExpr)
+					if !ok {
+						return false
+					}
+					lc, ok := ast.Unparen(be.X).(*ast.CallExpr)
+					if !ok || !m.IsBuiltin(lc, "len") || len(lc.Args) != 1 {
+						return false
+					}
+					tv, ok := m.Info.Types[be.Y]
+					if !ok || tv.Value == nil || tv.Value.String() != "0" {
+						return false
+					}
+					if !((be.Op == token.EQL && at.Truth) || (be.Op == token.NEQ && !at.Truth) || (be.Op == token.GTR && !at.Truth)) {
+						return false
+					}
+					// len(T.tables) with T an entry of the per-target index for the same key
+					sel, ok := ast.Unparen(lc.Args[0]).(*ast.SelectorExpr)
+					if !ok || fieldKeyOf(m, sel) != "tableIDs.tables" {
+						return false
+					}
+					for _, e := range exprChain(m, ff, sel.X, 0) {
+						if ix, ok := ast.Unparen(e).(*ast.IndexExpr); ok && fieldKeyOf(m, ix.X) == "archetypeData.targetTables" && m.ExprString(ast.Unparen(ix.Index)) == key {
+							return true
+						}
+					}
+					return false
+				},
+				Needs: func(ff *core.Func, y ast.Node) []core.Witness {
+					if y == ast.Node(call) {
+						return []core.Witness{{What: "delete"}}
+					}
+					return nil
+				},
+				SkipCallee: func(*core.Func) bool { return true },
+			}
+			if len(m.MustPrecede(spec).Unguarded[f]) == 0 {
+				c.OK("C04/R12", subject, c.At(call.Pos()), "under a test that the entry's own table list is empty")
+			} else {
+				c.Violation("C04/R12", subject, c.At(call.Pos()), fmt.Sprintf("%s drops the per-target entry of %s although the function neither removes the target from every relation column nor has established that the entry's own table list is empty; tables that use the target in another relation column would be skipped by the cleanup when the target dies", f.Name, key))
+			}
+			return true
+		})
+	}
+	if n == 0 {
+		c.Undecide("C04/R12", "per-target index", "no function deletes an entry of the per-target table index")
 	}
 }
